@@ -64,3 +64,5 @@ fn c17_bounded_pack_indexes_next() {
     kani::cover!(ids[0] == ids[2]);
     core::mem::forget(it);
 }
+
+
